@@ -110,6 +110,28 @@ theorem getitem_total (m : IMap) (h : WF m) (a b : Option Int)
 
 example : ∃ r, getitem ⟨[1, 3], [2, 3], 4⟩ (some (-7)) (some 99) none = .ok r := ⟨_, rfl⟩
 
+/-- **A stop at or beyond the end is the same as no stop** (current code, after the repair 52439bb91: the general
+form of `getitem_clamps_stop_example`): for a well-formed map and every `start`, `m[a:b]` with `b ≥ len(m)` is
+literally `m[a:]` — as for a Python string.  (Added by the audit.) -/
+theorem getitem_stop_clamped (m : IMap) (h : WF m) (a : Option Int) (b : Int) (hb : len m ≤ b) :
+    getitem m a (some b) none = getitem m a none none := by
+  have hl : (0 : Int) ≤ len m := by rw [← len_eq m h]; omega
+  unfold getitem
+  simp only [Option.isSome_none, Bool.false_eq_true, if_false]
+  have h1 : (if b ≥ 0 then b else len m + b) = b := if_pos (by omega)
+  have h2 : (if len m ≥ 0 then len m else len m + len m) = len m := if_pos hl
+  simp only [h1, h2]
+  have h3 : min b (len m) = len m := by omega
+  have h4 : min (len m) (len m) = len m := by omega
+  rw [h3, h4]
+  have : (b < 0) = False := by simp; omega
+  have : (len m < 0) = False := by simp; omega
+  simp [*]
+
+example : WF ⟨[1, 3], [2, 3], 4⟩ ∧ len ⟨[1, 3], [2, 3], 4⟩ ≤ 99 ∧
+    getitem ⟨[1, 3], [2, 3], 4⟩ (some 2) (some 99) none = .ok ⟨[0, 2], [1, 2], 3⟩ ∧
+    getitem ⟨[1, 3], [2, 3], 4⟩ (some 2) none none = .ok ⟨[0, 2], [1, 2], 3⟩ := by decide
+
 /-- integer indexing `m[i]` is the one-column slice -/
 theorem getitem_int_spec (m : IMap) (h : WF m) (i : Int) (r : IMap) (hr : getitemInt m i = .ok r) :
     WF r ∧ abs r = Gapped.slice (abs m) (some i) (some (i + 1)) :=
